@@ -10,8 +10,10 @@ Correspondence / oracles (harness/soln.cpp links the real libompl built from /re
      and vice versa; `cmp` lines compare operator< with Soln.lt pair by pair.
  (B) PathGeometric::cost(objective) / length() on random paths per objective vs the model fold (bits;
      a difference within 1e-12 relative is logged as numeric drift).
- (C) per-run oracle on real optimizing-planner runs (sampled): stored cost never better than the
-     recomputed cost, recomputed cost never better than the admissible bound, optimized flag <->
+ (C) per-run oracle on real optimizing-planner runs (sampled; incl. runs that end with approximate
+     solutions only, two goal states, clearSolutionPaths()+solve() loops): stored cost never better than
+     the recomputed cost and EQUAL to it (finite when it is) for the planners of the EQUALITY table,
+     recomputed cost never better than the admissible bound, optimized flag <->
      isSatisfied(stored cost), top/best cost monotone across continued solves, order without inversion,
      accessors mirror the top solution.
 Spec oracle (Python, on the implementation's outputs only) for all three parts.
@@ -758,7 +760,10 @@ def make_jobs(ck, rng):
                 for kind in kinds:
                     thr = r.choice(["def", "def", "inf", f2bits(r.choice([0.05, 0.2, 1.0, 2.0, 4.0]))])
                     job(planner, kind, r.range(1, 2), thr, r.choice([0, 1, 3, 4]), 2, r.range(1, 10 ** 6), max(evals // 2, 800), 2, g_small)
-            if planner in INFORMED_TREES or planner in ("RRTstar", "PRMstar", "LazyPRMstar"):
+            if planner == "LazyPRMstar":
+                # (its lazily validated roadmap gets slow over many slices: fewer of them)
+                job(planner, "len", 0, "def", 6, 2, r.range(1, 10 ** 6), 400, 10, f2bits(0.01), 1)
+            if planner in INFORMED_TREES or planner in ("RRTstar", "PRMstar"):
                 # the anytime pattern of tests/geometric/2d/*_optimize: many short slices of
                 # `clearSolutionPaths(); solve()`, two goal states, the better one behind a narrow window (env 6),
                 # an objective without admissible heuristic (unit state-cost integral: nothing is pruned)
@@ -785,6 +790,8 @@ def judge_runs(ck, hbin, jobs):
     with concurrent.futures.ThreadPoolExecutor(max_workers=min(14, (os.cpu_count() or 4))) as ex:
         for res in ex.map(lambda j: exec_job(ck, hbin, j), jobs):
             results.append(res)
+    import collections
+    per_kind = collections.Counter()
     chk = {"min": ["soln obj=min"], "max": ["soln obj=max"]}
     chk_src = {"min": [], "max": []}
     for job, out, rc, err in results:
@@ -827,12 +834,15 @@ def judge_runs(ck, hbin, jobs):
                 chk_src[mode].append(job)
         seen = set()
         for kind, what in fails:
-            if kind in seen or len(ck.violations) >= 12:
+            # one report per kind and run, at most 3 runs per (planner, kind) and 4 per kind: keeps a broken tree's output readable
+            if kind in seen or per_kind[kind] >= 4 or per_kind[(job["planner"], kind)] >= 3:
                 continue
             seen.add(kind)
             rec = {"engine": "soln", "part": "C", "kind": kind, "planner": job["planner"], "objective": job["obj"], "what": what}
             new = ck.report(rec, script=["solnrun", job_line(job)], expected=None, observed=out[:60], engine="soln")
             if new:
+                per_kind[kind] += 1            # known findings do not use up the budget
+                per_kind[(job["planner"], kind)] += 1
                 ck.log("property failure in run %s: [%s] %s" % (job_line(job), kind, what[:300]))
     # the model's lt on the orders the planners left in the problem definition
     for mode in ("min", "max"):
@@ -842,7 +852,8 @@ def judge_runs(ck, hbin, jobs):
                 a = (impl or [])[k] if k < len(impl or []) else "<missing>"
                 b = model[k] if k < len(model) else "<missing>"
                 ck.count("run-orders-checked-by-model")
-                if a != b or b != "inv=none":
+                if (a != b or b != "inv=none") and per_kind["model-lt"] < 4:
+                    per_kind["model-lt"] += 1
                     job = chk_src[mode][k]
                     ck.report({"engine": "soln", "part": "C", "kind": "inversion", "planner": job["planner"], "objective": job["obj"],
                                "what": "order left by the planner has an inversion under the model's lt (%s / %s)" % (a, b)},
